@@ -24,6 +24,7 @@ type Engine struct {
 	overlay   map[string][]byte
 	known     []*KnownFinding
 	ginfo     map[*ssa.Global]globalInfo
+	usedLemmas map[*Lemma]bool
 }
 
 func newEngine(repo string) *Engine {
@@ -371,6 +372,24 @@ func (e *Engine) verifyLemma(l *Lemma) *VC {
 	}
 	for _, r := range l.Requires {
 		vc.assert(sc.evalBool(r.X))
+	}
+	if l.Induct != "" {
+		// induction hypothesis: for n > base the lemma holds at n-1 (other parameters unchanged)
+		nv, ok := sc.vars[l.Induct]
+		if !ok {
+			vc.errs = append(vc.errs, "induction variable "+l.Induct+" is not a parameter")
+			return vc
+		}
+		prev := map[string]Val{l.Induct: {Ty: nv.Ty, T: sub(nv.T, intLit(1))}}
+		psc := sc.with(prev)
+		var req, ens []Term
+		for _, r := range l.Requires {
+			req = append(req, psc.evalBool(r.X))
+		}
+		for _, en := range l.Ensures {
+			ens = append(ens, psc.evalBool(en.X))
+		}
+		vc.assert(implies(gt(nv.T, intLit(l.From)), implies(and(req...), and(ens...))))
 	}
 	vc.cover(entry, "cover", "lemma hypotheses are satisfiable")
 	for i, en := range l.Ensures {
